@@ -250,7 +250,9 @@ pub fn resolve_contents(sc: &Scenario, corpus: &mut Corpus) -> Vec<RContent> {
                     None => basec,
                 }
             }
-            Content::Hex(b) => RContent { bytes: Arc::new(b.clone()), expect: Expect::Unknown },
+            // bytes that do not even begin with the magic number are no TZif file, whatever else they may be
+            // (for instance the text of a valid TZ description)
+            Content::Hex(b) => RContent { bytes: Arc::new(b.clone()), expect: if b.len() < 4 || &b[..4] != b"TZif" { Expect::Reject("bad_magic".into()) } else { Expect::Unknown } },
             Content::PingPong { n, d } => {
                 let z = crate::spec::pingpong_spec(*n, *d);
                 match (z.bytes(), z.expected()) {
